@@ -902,6 +902,11 @@ pub fn generate(rng: &mut Rng, opts: &GenOpts) -> Program {
     if ending == Ending::JumpBelow && origin == 0 {
         ending = Ending::JumpFFFF;
     }
+    // RET from main ends the program only while R7 still holds its load value: after a JSR it
+    // would return into main again, forever
+    if ending == Ending::RetFromMain && b.features.iter().any(|f| matches!(*f, "jsr_ret" | "jsrr" | "recursion_jsr")) {
+        ending = Ending::Halt;
+    }
 
     match ending {
         Ending::Halt | Ending::FallOff => {}
